@@ -132,8 +132,16 @@ func (e Event) Request() *z80.Interrupt {
 	if e.Kind == EvNMI {
 		return z80.NMIInterrupt()
 	}
+	// through the library's own constructors, as a host program would
 	d, _ := hex.DecodeString(e.Data)
-	return &z80.Interrupt{Type: z80.IMType, Data: d}
+	switch {
+	case len(d) == 0:
+		return z80.IM1Interrupt()
+	case len(d) == 1 && d[0]&1 == 0:
+		return z80.IM2Interrupt(d[0]) // even byte: a mode-2 vector
+	default:
+		return z80.IM0Interrupt(d[0], d[1:]...) // RST n (odd opcodes) / CALL nn / anything longer
+	}
 }
 
 // SameRequest compares two requests by value.
@@ -159,6 +167,9 @@ func FmtRequest(a *z80.Interrupt) string {
 	}
 	if a.Type == z80.NMIType {
 		return "NMI"
+	}
+	if len(a.Data) > 12 {
+		return fmt.Sprintf("INT(%x..%d bytes)", a.Data[:12], len(a.Data))
 	}
 	return fmt.Sprintf("INT(%x)", a.Data)
 }
